@@ -222,4 +222,29 @@ CHECKS = {
                    thorough=dict(checks=96, shards=8, timeout=6000), env=dict(VERIF_BATCH="8"))],
         assumptions=["trust established by a hub on its own (auto accept) is not generated: the plain register/unregister model of user intent applies"],
     ),
+    "C20": dict(
+        level="exploration",
+        rule=("all concurrent engines built with -race (GORACE halt_on_error=0, reports collected from log files): (1) hub level: three real "
+              "hubs over loopback with a connected core, 8-30 operations (register, unregister, cancel, disconnect, pairing detail, auto "
+              "accept, SPINE writes, mDNS appear/disappear, TCP cut, shutdown) most of them issued concurrently from their own goroutines, "
+              "then all hubs shut down at the same time; (2) ship level stress: the events of an adversarial script are issued from three "
+              "goroutines at once (deliveries, user actions and writes, virtual time so that handshake timers fire) on two real endpoints; "
+              "(3) websocket write/close races (C12 scenarios); (4) mDNS manager and Avahi provider histories (C17, C19 scenarios). Oracle: "
+              "zero data race reports; each report is keyed by the unordered pair of innermost ship-go functions of the two accesses. "
+              "non-trivial = >= 2 operations issued concurrently (hub level) / script with >= 4 events (stress); distinct = hash of the script"),
+        runs=[
+            dict(engine="hubnet", test="TestC20Hub", race=True, shrinktime="1s", quick=dict(checks=6, shards=3, timeout=1500),
+                 thorough=dict(checks=60, shards=6, timeout=6000), env=dict(VERIF_BATCH="6")),
+            dict(engine="shipsim", test="TestC20Stress", race=True, quick=dict(checks=4000, shards=3, timeout=900),
+                 thorough=dict(checks=150000, shards=6, timeout=4000)),
+            dict(engine="wsfault", test="TestC12", race=True, quick=dict(checks=600, shards=2, timeout=900),
+                 thorough=dict(checks=20000, shards=2, timeout=4000)),
+            dict(engine="mdnssim", test="TestC17", race=True, quick=dict(checks=1500, shards=1, timeout=900),
+                 thorough=dict(checks=40000, shards=1, timeout=4000)),
+            dict(engine="mdnssim", test="TestC19", race=True, quick=dict(checks=1500, shards=1, timeout=900),
+                 thorough=dict(checks=40000, shards=1, timeout=4000)),
+        ],
+        assumptions=["the race detector only sees races on executed interleavings: sampling with amplification, not enumeration",
+                     "mdns/zeroconf.go needs multicast sockets and is not exercised"],
+    ),
 }
